@@ -481,9 +481,32 @@ def main_wrapper(fn):
   except MachineryError as e:
     print(f'MACHINERY-FAILURE: {e}', file=sys.stderr)
     sys.exit(2)
-  except Exception:  # pylint: disable=broad-except
+  except Exception as e:  # pylint: disable=broad-except
     import traceback  # pylint: disable=g-import-not-at-top
     traceback.print_exc()
+    # An exception that fiddle itself raised (innermost frame inside the repository's fiddle package, here or
+    # in a worker process) during an operation that succeeds on the unchanged tree is a change of behaviour
+    # of the code under test, not a failure of the machinery: report it as a violation.
+    tb = ''.join(traceback.format_exception(type(e), e, e.__traceback__))
+    root = os.path.join(os.path.realpath(REPO), 'fiddle') + os.sep
+    raised_by_fiddle = False
+    for seg in tb.split('Traceback (most recent call last):')[1:]:
+      files = re.findall(r'File "([^"]+)", line \d+', seg)
+      if files and os.path.realpath(files[-1]).startswith(root):
+        raised_by_fiddle = True
+    prop = getattr(sys.modules.get('__main__'), 'PROP', None)
+    if raised_by_fiddle and prop and not os.environ.get('VERIF_REPLAY'):
+      os.makedirs(REPLAYS, exist_ok=True)
+      h = hashlib.sha1(tb.encode()).hexdigest()[:12]
+      path = os.path.join(REPLAYS, f'{prop}-{h}.json')
+      with open(path, 'w') as f:
+        json.dump({'property': prop, 'seed': seed(), 'tier': tier(),
+                   'features': {'clause': 'fiddle-raised-unexpectedly', 'exception': type(e).__name__},
+                   'case': {'message': 'an operation that succeeds on the unchanged tree raised inside fiddle',
+                            'traceback': tb[-4000:]}}, f, indent=1)
+      print(f'VIOLATION property={prop} replay={path}')
+      print('  features:', json.dumps({'clause': 'fiddle-raised-unexpectedly', 'exception': type(e).__name__}))
+      sys.exit(1)
     print('MACHINERY-FAILURE: unexpected exception in the harness', file=sys.stderr)
     sys.exit(2)
   sys.exit(rc)
